@@ -121,3 +121,115 @@ var specC11ScanFault = &Spec{
 }
 
 func TestC11ScanFault(t *testing.T) { RunProperty(t, specC11ScanFault) }
+
+// ---------------------------------------------------------------------------------------------------------------
+// TiKV commit faults: the cluster refuses one phase of a write batch's transaction with an error the client does not
+// retry; the batch must report an error and must not have taken effect (and a later batch works again)
+
+type c11CommitFaultCase struct {
+	Engine string
+	Phase  string // prewrite | commit
+	Kind   string // retryable | abort
+	Ops    int    // puts in the faulted batch
+	Cond   string // none | pine | cas
+}
+
+func genC11CommitFault(t *rapid.T) interface{} {
+	return &c11CommitFaultCase{Engine: EnvStr("VERIF_ENGINE", EngTiKV), Phase: rapid.SampledFrom([]string{"prewrite", "prewrite", "commit"}).Draw(t, "phase"),
+		Kind: rapid.SampledFrom([]string{"retryable", "abort"}).Draw(t, "kind"), Ops: rapid.IntRange(1, 4).Draw(t, "ops"),
+		Cond: rapid.SampledFrom([]string{"none", "pine", "cas"}).Draw(t, "cond")}
+}
+
+func runC11CommitFault(ci interface{}, st *CaseStats) error {
+	c := ci.(*c11CommitFaultCase)
+	eng, err := OpenEngine(c.Engine)
+	if err != nil || eng.TiKVGuard == nil {
+		return Inconclusivef("engine: %v", err)
+	}
+	defer eng.Close()
+	kv, ctx := eng.KV, context.Background()
+	seed := kv.BeginBatchWrite()
+	seed.Put([]byte("c11/f/guard"), []byte("g0"), 0)
+	if err := seed.Commit(ctx); err != nil {
+		return Inconclusivef("seed: %v", err)
+	}
+	var armed, fired int32 = 1, 0
+	keyErr := func() *kvrpcpb.KeyError {
+		if c.Kind == "abort" {
+			return &kvrpcpb.KeyError{Abort: "injected: transaction aborted by the cluster"}
+		}
+		return &kvrpcpb.KeyError{Retryable: "injected: refused, try again"}
+	}
+	eng.TiKVGuard.SetHook(func(req *tikvrpc.Request) *tikvrpc.Response {
+		if atomic.LoadInt32(&armed) == 0 {
+			return nil
+		}
+		switch {
+		case c.Phase == "prewrite" && req.Type == tikvrpc.CmdPrewrite:
+			atomic.StoreInt32(&armed, 0)
+			atomic.StoreInt32(&fired, 1)
+			return &tikvrpc.Response{Resp: &kvrpcpb.PrewriteResponse{Errors: []*kvrpcpb.KeyError{keyErr()}}}
+		case c.Phase == "commit" && req.Type == tikvrpc.CmdCommit:
+			atomic.StoreInt32(&armed, 0)
+			atomic.StoreInt32(&fired, 1)
+			return &tikvrpc.Response{Resp: &kvrpcpb.CommitResponse{Error: keyErr()}}
+		}
+		return nil
+	})
+	defer eng.TiKVGuard.SetHook(nil)
+	b := kv.BeginBatchWrite()
+	switch c.Cond {
+	case "pine":
+		b.PutIfNotExist([]byte("c11/f/new"), []byte("n"), 0)
+	case "cas":
+		b.CAS([]byte("c11/f/guard"), []byte("g1"), []byte("g0"), 0)
+	}
+	for i := 0; i < c.Ops; i++ {
+		b.Put([]byte(fmt.Sprintf("c11/f/k%d", i)), []byte("v"), 0)
+	}
+	cerr := b.Commit(ctx)
+	atomic.StoreInt32(&armed, 0)
+	if atomic.LoadInt32(&fired) == 0 {
+		st.Label("fault-not-reached")
+		return nil
+	}
+	what := fmt.Sprintf("the cluster refused the %s of a batch (%s key error): Commit returned %v", c.Phase, c.Kind, cerr)
+	after, derr := c11Dump(kv)
+	if derr != nil {
+		return Inconclusivef("dump: %v", derr)
+	}
+	applied := 0
+	for i := 0; i < c.Ops; i++ {
+		if _, ok := after[fmt.Sprintf("f/k%d", i)]; ok {
+			applied++
+		}
+	}
+	switch {
+	case cerr == nil && applied != c.Ops:
+		return fmt.Errorf("%s, yet only %d of its %d puts are in the store: a refused batch must be reported as an error", what, applied, c.Ops)
+	case cerr != nil && errClass(cerr) != "uncertain" && applied != 0:
+		return fmt.Errorf("%s (a definite failure), yet %d of its %d puts are in the store", what, applied, c.Ops)
+	case applied != 0 && applied != c.Ops:
+		return fmt.Errorf("%s and %d of its %d puts are in the store: a batch takes effect entirely or not at all", what, applied, c.Ops)
+	}
+	st.Label("answer:" + errClass(cerr))
+	// the engine keeps working
+	nb := kv.BeginBatchWrite()
+	nb.Put([]byte("c11/f/after"), []byte("a"), 0)
+	if err := nb.Commit(ctx); err != nil {
+		return fmt.Errorf("%s; the next batch then failed with %v", what, err)
+	}
+	st.Nontrivial()
+	return nil
+}
+
+var specC11CommitFault = &Spec{
+	ID:   "C11",
+	Rule: "TiKV commit-fault mode: case = a write batch (1..4 puts, optionally a put-if-absent or compare-and-swap whose condition holds) whose prewrite or commit request the cluster answers once with a key error (retryable / abort), injected between the TiKV client and the mock cluster. Oracle: Commit returns an error unless the whole batch is in the store; after a definite error nothing of it is there; never a part of it; the next batch succeeds. Non-trivial = the fault was reached; distinct = SHA-1 of the case",
+	Gen:  genC11CommitFault,
+	New:  func() interface{} { return &c11CommitFaultCase{} },
+	Run:  runC11CommitFault,
+	Engines: []string{EngTiKV, EngTiKVMet},
+}
+
+func TestC11CommitFault(t *testing.T) { RunProperty(t, specC11CommitFault) }
